@@ -438,7 +438,9 @@ class Lexer:
         pattern = []
         in_char_class = False
 
-        while self.pos < self.length:
+        while True:
+            if self.pos >= self.length:
+                raise JSSyntaxError("Unterminated regex literal", line, column)
             ch = self._current()
 
             if ch == "\\" and self.pos + 1 < self.length:
